@@ -399,7 +399,11 @@ impl Shared {
     }
 
     /// A complete request is waiting unread on `conn`: decide its outcome.
-    fn next_for_request(&self, conn: u64, req_call: Option<u64>) -> (Out, Realized, u64) {
+    /// `dead_conn`: this connection already left a request unanswered (silent-until-timeout).
+    /// Such a connection stays silent for the rest of its life, like a half-open socket or a
+    /// wedged per-connection worker: requests that a fleet keeps sending on it are attempts
+    /// that time out again, without consuming a scripted outcome.
+    fn next_for_request(&self, conn: u64, req_call: Option<u64>, dead_conn: bool) -> (Out, Realized, u64) {
         let mut st = self.lock();
         if req_call != Some(st.cur_call) {
             // the request of an earlier call surfaced only now (its call has
@@ -407,9 +411,13 @@ impl Shared {
             let cur = st.cur_call;
             st.anomalies.push(format!("request of call {req_call:?} arrived during call {cur}"));
         }
-        let (outcome, scripted) = match st.script.pop_front() {
-            Some(o) => (o, true),
-            None => (Out::Success, false),
+        let (outcome, scripted) = if dead_conn {
+            (Out::Silent, false)
+        } else {
+            match st.script.pop_front() {
+                Some(o) => (o, true),
+                None => (Out::Success, false),
+            }
         };
         st.serial += 1;
         let serial = st.serial;
@@ -450,7 +458,11 @@ impl Shared {
                 // drop it now or keep it and lose it later): grant the excuse
                 // here, at a deterministic point
                 st.last_failure = Some(Out::Silent);
-                st.excuse = true;
+                // (a request the fleet sends on a connection that is already known to be
+                // silent earns no further excuse: keeping that connection is the fleet's fault)
+                if scripted {
+                    st.excuse = true;
+                }
             }
             Out::Malformed => {
                 st.last_failure = Some(Out::Malformed);
@@ -527,12 +539,16 @@ fn wait_request(sh: &Shared, s: &TcpStream) -> Req {
 }
 
 fn handle_conn(sh: Arc<Shared>, conn: u64, mut s: TcpStream) {
+    let mut dead_conn = false;
     loop {
         let (total, req_call) = match wait_request(&sh, &s) {
             Req::Ready(t, _, c) => (t, c),
             Req::Closed => break,
         };
-        let (outcome, realized, serial) = sh.next_for_request(conn, req_call);
+        let (outcome, realized, serial) = sh.next_for_request(conn, req_call, dead_conn);
+        if matches!(realized, Realized::Silent) {
+            dead_conn = true;
+        }
         if matches!(realized, Realized::Reset | Realized::DownReset) {
             // close with the request unread: the kernel answers with RST
             sh.conn_gone(conn);
